@@ -1,7 +1,7 @@
 //! The implementation side of the line protocol: answers the same requests as the Lean driver by
 //! calling the real engine in-process. Every request runs under `catch_unwind`.
 
-use std::cell::RefCell;
+use std::sync::Mutex;
 use std::collections::HashMap;
 use std::panic::{catch_unwind, AssertUnwindSafe};
 
@@ -14,12 +14,12 @@ use crate::sx::{self, Sx};
 
 pub struct Rec<'a> {
     pub inner: &'a Mapping,
-    pub log: RefCell<Vec<String>>,
+    pub log: Mutex<Vec<String>>,
 }
 
 impl Document for Rec<'_> {
     fn find(&self, key: &str) -> Option<Value<'_>> {
-        self.log.borrow_mut().push(key.to_string());
+        self.log.lock().unwrap().push(key.to_string());
         Object::find(self.inner, key)
     }
 }
@@ -191,10 +191,10 @@ pub fn handle_case(c: &CaseReq) -> String {
                 Some(map) => {
                     let rec = Rec {
                         inner: map,
-                        log: RefCell::new(vec![]),
+                        log: Mutex::new(vec![]),
                     };
                     let verdict = o.matches(&rec);
-                    let trace: Vec<String> = rec.log.borrow().iter().map(|k| sx::enc(k)).collect();
+                    let trace: Vec<String> = rec.log.lock().unwrap().iter().map(|k| sx::enc(k)).collect();
                     let t = tri(&o.detection.expression, &o.detection.identifiers, map);
                     // `matches` and the three-valued observation must agree
                     let t = if (t == "T") != verdict { "INCONSISTENT" } else { t };
